@@ -382,3 +382,34 @@ func (p *Program) resolveReceiverKinds() {
 		p.Notes = append(p.Notes, fmt.Sprintf("method %s is known to the rules as %s (receiver kind changed)", old, other))
 	}
 }
+
+// PointConstant identifies the package-level *Point variables the exported
+// constructors hand out copies of: "generator" is the variable
+// NewGeneratorPoint reads, "identity" the one NewIdentityPoint reads — whatever
+// they are called. Falls back to the variable of that name.
+func (p *Program) PointConstant(role string) *ssa.Global {
+	ctor := map[string]string{"generator": "NewGeneratorPoint", "identity": "NewIdentityPoint"}[role]
+	var found []*ssa.Global
+	if f := p.ByName[ctor]; f != nil {
+		seen := map[*ssa.Global]bool{}
+		for _, b := range f.Blocks {
+			for _, in := range b.Instrs {
+				for _, op := range in.Operands(nil) {
+					if g, ok := (*op).(*ssa.Global); ok && !seen[g] && g.Pkg == p.Root {
+						if pt, ok := g.Type().(*types.Pointer); ok && isPtrToNamed(pt.Elem(), RootPath, "Point") {
+							seen[g] = true
+							found = append(found, g)
+						}
+					}
+				}
+			}
+		}
+	}
+	if len(found) == 1 {
+		return found[0]
+	}
+	if m, ok := p.Root.Members[role].(*ssa.Global); ok {
+		return m
+	}
+	return nil
+}
